@@ -1240,6 +1240,97 @@ theorem column_ints (rows : List Bytes) (vs : List Int) (h : omap specParse rows
       intro u hu
       exact hr _ (List.mem_map.mpr ⟨u, hu, rfl⟩))
 
+theorem omap_getD_at {α β} (f : α → Option β) (l : List α) (r : List β) (da : α) (db : β)
+    (h : omap f l = some r) (i : Nat) (hi : i < l.length) : f (l.getD i da) = some (r.getD i db) := by
+  induction l generalizing r i with
+  | nil => simp at hi
+  | cons x xs ih =>
+    obtain ⟨b, bs, hb, hbs, rfl⟩ := omap_cons_eq_some f x xs r h
+    cases i with
+    | zero => simpa using hb
+    | succ j =>
+      have := ih bs hbs j (by simpa using hi)
+      simpa using this
+
+/-- **C18.column_ints_selection**: the integer column of ANY selection of the rows of a file (an index
+list: any order, repeats, a sub-batch — what `table[idx]` on a lazily read table keeps) is the same
+selection of the column's values, whichever of the two routes (fixed-width digit matrix / ragged
+path with sign flags) the SELECTED rows take: the route is chosen from the selected rows only, so a
+sub-batch without signs of a column with signs goes the other way and must still agree. -/
+theorem column_ints_selection (rows : List Bytes) (vs : List Int) (h : omap specParse rows = some vs)
+    (hr : ∀ v ∈ vs, int64 v) (idx : List Nat) (hi : ∀ i ∈ idx, i < rows.length) :
+    columnInts (idx.map (fun i => rows.getD i [])) = some (idx.map (fun i => vs.getD i 0)) := by
+  have hlen := omap_length specParse rows vs h
+  apply column_ints
+  · rw [show idx.map (fun i => vs.getD i 0) = (idx.map (fun i => rows.getD i [])).map (fun r => (specParse r).getD 0) from ?_]
+    · apply omap_some_map
+      intro r hrm
+      obtain ⟨i, him, rfl⟩ := List.mem_map.mp hrm
+      rw [omap_getD_at specParse rows vs [] 0 h i (hi i him)]
+      rfl
+    · rw [List.map_map]
+      apply List.map_congr_left
+      intro i him
+      simp only [Function.comp]
+      rw [omap_getD_at specParse rows vs [] 0 h i (hi i him)]
+      rfl
+  · intro v hv
+    obtain ⟨i, him, rfl⟩ := List.mem_map.mp hv
+    have hlt : i < vs.length := by rw [hlen]; exact hi i him
+    apply hr
+    have : vs.getD i 0 = vs[i] := by simp [List.getD_eq_getElem?_getD, List.getElem?_eq_getElem hlt]
+    rw [this]
+    exact List.getElem_mem hlt
+
+example : columnInts ([2, 0, 0].map (fun i => [[45, 49], [48, 55], [51]].getD i [])) = some [3, -1, -1] := by decide
+
+theorem compactFrom_fields (data : Bytes) (rows : List LRow) (h : ∀ r ∈ rows, WFRow data r) :
+    ∀ (pos : Nat) (pre : Bytes), pre.length = pos →
+      (compactFrom data pos rows).2.map (fieldOf (pre ++ (compactFrom data pos rows).1)) = rows.map (fieldOf data) := by
+  induction rows with
+  | nil => intro pos pre _; rfl
+  | cons r rs ih =>
+    intro pos pre hpre
+    obtain ⟨h1, h2, h3⟩ := h r (by simp)
+    have hseg : ((data.drop r.es).take (r.ee - r.es)).length = r.ee - r.es := by
+      simp only [List.length_take, List.length_drop]; omega
+    simp only [compactFrom, List.map_cons]
+    congr 1
+    · -- the head row
+      unfold fieldOf
+      simp only
+      have e1 : r.fs + pos - r.es = pre.length + (r.fs - r.es) := by omega
+      rw [e1, List.drop_length_add_append]
+      rw [List.drop_append_of_le_length (by rw [hseg]; omega)]
+      rw [List.take_append_of_le_length (by simp only [List.length_drop, hseg]; omega)]
+      rw [List.drop_take, List.take_take, List.drop_drop]
+      have e2 : r.es + (r.fs - r.es) = r.fs := by omega
+      have e3 : min r.fl (r.ee - r.es - (r.fs - r.es)) = r.fl := by omega
+      rw [e2, e3]
+    · have := ih (fun x hx => h x (by simp [hx])) (pos + (r.ee - r.es))
+        (pre ++ (data.drop r.es).take (r.ee - r.es)) (by rw [List.length_append, hseg, hpre])
+      rw [List.append_assoc] at this
+      exact this
+
+/-- **C18.compact_fields**: compacting a row selection of a lazily read table (any rows, any order,
+repeats) into a new text leaves every selected field's text unchanged -/
+theorem compact_fields (data : Bytes) (rows : List LRow) (h : ∀ r ∈ rows, WFRow data r) :
+    (compact data rows).2.map (fieldOf (compact data rows).1) = rows.map (fieldOf data) := by
+  have := compactFrom_fields data rows h 0 [] rfl
+  simpa [compact] using this
+
+/-- **C18.lazy_column_compacted**: the integer column read from a compacted row selection is the
+column of the selected fields' texts as they stood in the file — so (with `column_ints`) their values -/
+theorem lazy_column_compacted (data : Bytes) (rows : List LRow) (h : ∀ r ∈ rows, WFRow data r)
+    (vs : List Int) (hv : omap specParse (rows.map (fieldOf data)) = some vs) (hr : ∀ v ∈ vs, int64 v) :
+    columnInts ((compact data rows).2.map (fieldOf (compact data rows).1)) = some vs := by
+  rw [compact_fields data rows h]
+  exact column_ints _ vs hv hr
+
+example : WFRow [49, 9, 50, 10, 51, 9, 52, 10] ⟨4, 8, 6, 1⟩ := by unfold WFRow; decide
+example : (compact [49, 9, 50, 10, 51, 9, 52, 10] [⟨4, 8, 6, 1⟩, ⟨0, 4, 2, 1⟩]).1 = [51, 9, 52, 10, 49, 9, 50, 10] := by decide
+example : lazyColumnInts [[[49], [50]], [[51], [45, 52]]] 1 [1, 0, 1] = some [-4, 2, -4] := by decide
+
 theorem fill_spec (m : Int) (f : Bytes → Int) (rows : List Bytes) :
     fillMissing m rows ((rows.filter (fun r => !isMissing r)).map f)
       = rows.map (fun r => if isMissing r then m else f r) := by
